@@ -554,3 +554,72 @@ SCENARIOS = SCENARIOS + [
     Scenario("C12.eager.cast_pyvalue", s_cast_pyvalue, F("onnxscript/_internal/autocast.py", "cast_pyvalue_to_os_tensor", "_promotable", "_get_dtype"),
              kind="evaluation" if False else "deductive", trusted=["np.array(value, dtype) converts to dtype (numpy)"]),
 ]
+
+
+def s_static_cast_inputs(_ctx):
+    """autocast.static_cast_inputs (converter side of the promotion rule), executed from source on the real operator
+    signatures: a castable literal is wrapped in CastLike(literal, T-sibling) exactly when a non-literal operand is bound
+    to the same type variable; tensors, omitted inputs and literals without such a sibling are passed through."""
+    import onnx
+    import onnx_ir as ir
+    from contracts.c17_opsets import Agg
+    from pyvc.core import Ctx
+    from onnxscript._internal import autocast, converter
+    agg = Agg()
+    cl = "C12: 'a literal ... takes the element type of the tensor operands it is constrained to match'"
+
+    class V:
+        def __init__(self, name):
+            self.name = name
+
+        def __repr__(self):
+            return self.name
+    # (op, operands) with L = castable literal, T = tensor value, N = omitted input; expected: index of the sibling each literal is cast like (or None)
+    cases = [("Add", "TL", {1: 0}), ("Add", "LT", {0: 1}), ("Add", "LL", {}), ("Add", "TT", {}), ("Where", "TTL", {2: 1}), ("Where", "TLT", {1: 2}),
+             ("Where", "LTT", {}), ("Clip", "TLL", {1: 0, 2: 0}), ("Clip", "TNL", {2: 0}), ("Gather", "TL", {}), ("Pow", "TL", {}), ("Concat", "TLT", {1: 2}),
+             ("Max", "TLL", {1: 0, 2: 0})]
+    n = 0
+    for op_name, shape, want in cases:
+        n += 1
+        ctx = Ctx([], {"solver_s": 0.0, "queries": 0})
+        I = Interp(ctx)
+        sig = ir.schemas.OpSignature.from_op_schema(onnx.defs.get_schema(op_name, 18))
+        args = [None if k == "N" else V(f"{'lit' if k == 'L' else 'x'}{i}") for i, k in enumerate(shape)]
+        conv = SObj(converter.Converter, "converter")
+        emitted = []
+        I.models[converter.Converter._is_castable] = lambda interp, slf, name: name.startswith("lit")
+        I.models[converter.Converter._generate_unique_name] = lambda interp, slf, cand="tmp": f"{cand}#{len(emitted)}"
+
+        def m_emit1(interp, slf, outs, op_, ins, attrs=None):
+            r = V(outs[0])
+            emitted.append((op_, list(ins), r))
+            return r
+        I.models[converter.Converter._emit1] = m_emit1
+        try:
+            res = I.run_closure(I.closure_of(autocast.static_cast_inputs), [conv, sig, tuple(args)], {})
+            ok = len(res) == len(args)
+            detail = []
+            for i, (a, r) in enumerate(zip(args, res)):
+                if i in want:
+                    e = [x for x in emitted if x[2] is r]
+                    good = len(e) == 1 and e[0][0] == "CastLike" and e[0][1] == [a, args[want[i]]]
+                    if not good:
+                        detail.append(f"operand {i} ({a}) should be CastLike({a}, {args[want[i]]}) but is {r} {e}")
+                    ok = ok and good
+                else:
+                    if r is not a:
+                        detail.append(f"operand {i} ({a}) should be passed through but became {r}")
+                    ok = ok and r is a
+            ok = ok and len(emitted) == len(want)
+            d = f"{op_name}{tuple(args)} -> {tuple(res)}; emitted {[(e[0], e[1]) for e in emitted]}; " + "; ".join(detail)
+        except Exception as e:  # noqa: BLE001
+            ok, d = False, f"{op_name}{tuple(args)}: {type(e).__name__}: {e}"
+        agg.ob("C12.converter.static_cast_inputs.literal_is_cast_like_its_type_sibling_and_nothing_else_changes", ok, d, cl, case=f"{op_name} {shape}")
+    return {"obligations": agg.obs, "paths": n, "covered": [f"signature_cases={n}"], "notes": [], "functions": []}
+
+
+SCENARIOS = SCENARIOS + [
+    Scenario("C12.converter.static_cast_inputs", s_static_cast_inputs,
+             F("onnxscript/_internal/autocast.py", "static_cast_inputs", "static_cast_inputs.get_type_info", "static_cast_inputs.cast_like", "cast_inputs"), kind="evaluation",
+             trusted=["ir.schemas.OpSignature.from_op_schema (type constraints of the ONNX operator schemas)"]),
+]
